@@ -8,7 +8,9 @@ Implementation under test (real code, objects built without __init__):
   payloads that print, edit os.environ, return and raise (python level and
   process level environment observed),
   AgentSchedulingComponent._schedule_incoming (raptor branch) and control_cb
-  (register/unregister_raptor_queue, cancel_tasks)."""
+  (register/unregister_raptor_queue, cancel_tasks),
+  DefaultWorker._dispatch (the real mp.Process wrapper, forked) on payloads
+  that return, raise, exit, get killed or time out."""
 import asyncio
 import copy
 import ctypes
@@ -249,7 +251,8 @@ class C20(Prop):
     corr_name = ('Raptor.Model (wrun/master_result/master_request/submit_tasks/drun/srun) vs DefaultWorker._request_cb/'
                  '_result_cb/_alloc/_dealloc, Master._result_cb/_request_cb/_submit_tasks, Worker._dispatch_*, '
                  'AgentSchedulingComponent._schedule_incoming/control_cb')
-    rule = ('corpus, then seed-determined streams: worker request/completion streams (batches of requests with core/GPU '
+    rule = ('corpus, then the 16 ways a payload process can end under the real DefaultWorker._dispatch (return, raise, '
+            'sys.exit/os._exit with code 0/3, SIGKILL, time-out; exec and eval), then seed-determined streams: worker request/completion streams (batches of requests with core/GPU '
             'demands mostly within the worker size, completions/failures/time-outs in arbitrary order, failing process '
             'starts, stale results, completions arriving while a request waits for resources; every result piped through '
             'the real Master._result_cb), master result batches (exit codes incl. None/absent, preset target states, '
@@ -379,8 +382,16 @@ class C20(Prop):
                 ops.append(['cancel', sorted(set(rng.randint(1, max(1, uid)) for _k in range(rng.randint(1, 3))))])
         return {'kind': 'sched', 'queues0': q0, 'ops': ops}
 
+    def gen_procend(self):
+        for mode in ('exec', 'eval'):
+            for end in (['return'], ['raise'], ['exit', False, 0], ['exit', False, 3], ['exit', True, 0],
+                        ['exit', True, 3], ['kill'], ['timeout']):
+                yield {'kind': 'procend', 'mode': mode, 'end': end}
+
     def cases(self, rng, tier):
         quick = tier == 'quick'
+        for c in self.gen_procend():
+            yield c
         for _ in range(400 if quick else 8000):
             yield self.gen_worker(rng, big=not quick)
         for _ in range(120 if quick else 2000):
@@ -718,6 +729,48 @@ class C20(Prop):
             self._reset_env([])
         return {'per_req': out}
 
+    # .......................................................... process wrapper
+    def impl_procend(self, case):
+        import multiprocessing as mp
+        import radical.pilot.raptor.worker_default as wd
+        end, mode = case['end'], case['mode']
+        if mode == 'exec':
+            code = {'return': 'return 5', 'raise': 'raise ValueError("m1")',
+                    'exit': 'import os, sys\n%s(%d)' % ('os._exit' if end[1:] and end[1] else 'sys.exit',
+                                                        end[2] if end[1:] else 0),
+                    'kill': 'import os, signal\nos.kill(os.getpid(), signal.SIGKILL)',
+                    'timeout': 'import time\ntime.sleep(30)'}[end[0]]
+        else:
+            code = {'return': '5', 'raise': '1/0',
+                    'exit': '%s(%d)' % ('os._exit' if end[1:] and end[1] else 'sys.exit', end[2] if end[1:] else 0),
+                    'kill': 'os.kill(os.getpid(), 9)', 'timeout': 'time.sleep(30)'}[end[0]]
+        w = wd.DefaultWorker.__new__(wd.DefaultWorker)
+        w._uid = 'worker.0000'
+        w._log, w._prof = mock.MagicMock(), mock.MagicMock()
+        w._sbox = os.getcwd()
+        w._task_env = {}
+        w._result_queue = mp.Queue()
+        w._modes = {}
+        w.register_mode('task.eval', w._dispatch_eval)
+        w.register_mode('task.exec', w._dispatch_exec)
+        task = {'uid': 'req.000001', 'slots': [{'cores': [0], 'gpus': []}],
+                'task_sandbox_path': os.path.join(os.getcwd(), 'sbox'),
+                'description': {'mode': 'task.' + mode, 'code': code, 'environment': {},
+                                'timeout': 0.25 if end[0] == 'timeout' else 0}}
+        p = mp.Process(target=w._dispatch, args=(task, {}))
+        p.start()
+        p.join(30)
+        if p.is_alive():
+            p.kill()
+        res = []
+        try:
+            while True:
+                r = w._result_queue.get(timeout=0.1)
+                res.append([r[3] if isinstance(r[3], int) else -999, r[5][0] is not None])
+        except queue.Empty:
+            pass
+        return {'results': res}
+
     # .......................................................... scheduler
     def impl_sched(self, case):
         import radical.utils as ru
@@ -837,8 +890,18 @@ class C20(Prop):
     def _sargs(self, case):
         return '%s %s' % (L.zlist(case['queues0']), L.lst([sop_lit(o) for o in case['ops']]))
 
+    def _pend(self, case):
+        e = case['end']
+        if e[0] == 'exit':
+            return '(PExit %s %s)' % (L.boolean(e[1]), L.Z(e[2]))
+        return dict(kill='PKill', timeout='PTimeout')[e[0]] if e[0] in ('kill', 'timeout') else \
+            {'return': 'PReturn', 'raise': 'PRaise'}[e[0]]
+
     def coq_row(self, case, obs):
         k = case['kind']
+        if k == 'procend':
+            return '(c20_procend_row %s %s)' % (self._pend(case), L.lst(
+                ['(%s, %s)' % (L.Z(r), L.boolean(x)) for r, x in obs['results']]))
         if k == 'worker':
             f = obs['final']
             return '(c20_worker_row %s %s (%s, %s, %s) %s)' % (
@@ -868,6 +931,8 @@ class C20(Prop):
 
     def model_show(self, case):
         k = case['kind']
+        if k == 'procend':
+            return 'proc_results %s' % self._pend(case)
         if k == 'worker':
             return 'wrun (winit %s %s) %s' % (L.nat(case['nc']), L.nat(case['ng']),
                                               L.lst([wop_lit(o) for o in case['ops']]))
@@ -888,6 +953,8 @@ class C20(Prop):
     # ------------------------------------------------------------------ misc
     def nontrivial(self, case, obs):
         k = case['kind']
+        if k == 'procend':
+            return case['end'][0] != 'return'
         if k == 'worker':
             run, best = 0, 0
             for e in obs['evs']:
@@ -908,7 +975,7 @@ class C20(Prop):
         kinds = set(e[0] for e in obs['evs'])
         return 'put' in kinds and (bool(obs['backlog']) or 'fail' in kinds or 'cancel' in kinds)
 
-    SITE = dict(worker='DefaultWorker._request_cb/_result_cb', mresult='Master._result_cb',
+    SITE = dict(procend='DefaultWorker._dispatch', worker='DefaultWorker._request_cb/_result_cb', mresult='Master._result_cb',
                 mrequest='Master._request_cb', msubmit='Master._submit_tasks', dispatch='Worker._dispatch',
                 sched='AgentSchedulingComponent._schedule_incoming/control_cb')
 
@@ -919,6 +986,8 @@ class C20(Prop):
             oob = any(not (1 <= (c if c is not None else 1) <= case['nc'] and 0 <= (g or 0) <= case['ng'])
                       for o in case['ops'] if o[0] == 'req' for _, c, g, _sf in o[1])
             cond = ':demand-beyond-worker' if oob else ':demand-within-worker'
+        if k == 'procend':
+            cond = ':process-ended-without-result' if not obs['results'] else ':' + case['end'][0]
         return '%s:%s%s' % (clause, self.SITE[k], cond)
 
     def shrink(self, case):
@@ -968,6 +1037,8 @@ class C20(Prop):
                 if r['obs']:
                     raised += any(e[0] == 'raise' for e in r['obs']['evs'])
                     stuck += any(e[0] == 'stuck' for e in r['obs']['evs'])
+            if c['kind'] == 'procend':
+                modes['process-end:' + c['end'][0]] = modes.get('process-end:' + c['end'][0], 0) + 1
             if c['kind'] == 'dispatch':
                 for q in c['reqs']:
                     modes[q[0]] = modes.get(q[0], 0) + 1
